@@ -269,6 +269,10 @@ class FlowConfigParser(configparser.ConfigParser):
         args = kwargs.copy()
         if 'strict' not in args:
             args['strict'] = False
+        if 'interpolation' not in args:
+            # VV: Values are always read raw (see get()); FlowIR owns the %(variable)s syntax. With the default
+            #     BasicInterpolation set() refuses values which contain a plain '%' (e.g. `date +%Y`)
+            args['interpolation'] = None
         super(FlowConfigParser, self).__init__(defaults, dict_type, allow_no_value=allow_no_value, **args)
 
     def get(self, section, option, raw=True, vars=None):
